@@ -40,6 +40,8 @@ struct Scn {
     layout: usize,
     /// instance-name shape of S1: 0 "one", 1 non-ASCII capital letters, 2 a dot inside the label
     shape: usize,
+    /// own multicasts are heard back (IP_MULTICAST_LOOP, the crate's default)
+    loopback: bool,
 }
 const SHAPES: [(&str, &str, &str); 3] = [
     // (tag, instance label, the same label with only its ASCII letters in the other case)
@@ -274,7 +276,9 @@ impl Scn {
 impl Scenario for Scn {
     type Run = Run;
     fn name(&self) -> String {
-        if self.shape == 0 {
+        if self.loopback {
+            format!("unregister-sequences-{}-multicast-loop", layouts()[self.layout].0)
+        } else if self.shape == 0 {
             format!("unregister-sequences-{}", layouts()[self.layout].0)
         } else {
             format!("unregister-sequences-{}-{}", layouts()[self.layout].0, SHAPES[self.shape].0)
@@ -293,6 +297,7 @@ impl Scenario for Scn {
             ips.push("10.0.1.5".into());
         }
         let mut w = World::one(intfs.clone());
+        w.loopback = w.loopback || self.loopback;
         w.ds[0].h.set_ip_check_interval(3600).unwrap();
         w.ds[0].ctl.set_rng_default(0);
         w.poke(0);
@@ -423,7 +428,15 @@ pub fn check(tier: &str) -> i32 {
     rep.assume("SRV/TXT RDATA of a goodbye is compared by names only (a re-registration may have changed port/TXT since the last announcement)");
     let depth = if thorough { 5 } else { 4 };
     for layout in 0..3 {
-        let scn = Scn { layout, shape: 0 };
+        let scn = Scn { layout, shape: 0, loopback: false };
+        rep.run_bfs(&scn, depth, Duration::from_secs(if thorough { 2400 } else { 25 }));
+        let nm = scn.name();
+        rep.require(&nm, "unregister_replies_checked");
+        rep.require(&nm, "goodbyes_expected");
+    }
+    // own multicasts heard back (dual-stack layout)
+    {
+        let scn = Scn { layout: 1, shape: 0, loopback: true };
         rep.run_bfs(&scn, depth, Duration::from_secs(if thorough { 2400 } else { 25 }));
         let nm = scn.name();
         rep.require(&nm, "unregister_replies_checked");
@@ -431,7 +444,7 @@ pub fn check(tier: &str) -> i32 {
     }
     // other instance-name shapes (one layout, one level less deep)
     for shape in 1..SHAPES.len() {
-        let scn = Scn { layout: 0, shape };
+        let scn = Scn { layout: 0, shape, loopback: false };
         rep.run_bfs(&scn, depth - 1, Duration::from_secs(if thorough { 1200 } else { 25 }));
         let nm = scn.name();
         rep.require(&nm, "unregister_replies_checked");
